@@ -328,7 +328,7 @@ def plan(tier: str):
         # walks over the medium alphabet (its exhaustive depth-2 instance has 2 M states and a million histories per
         # start: too many to replay)
         for s in ["lab22", "lab23", "zeros22"]:
-            jobs.append((s, 6, "medium", 200))
+            jobs.append((s, 3, "medium", 15))
     return jobs
 
 
